@@ -502,3 +502,61 @@ SPECS["C01"] = dict(
         H("config_h", "c17_quorum_k4", symbolic="as C17", asserts="local step replayed natively if the threshold deviates"),
     ],
 )
+
+
+# --------------------------------------------------------------------------------------------- C17 second engine: MIR -> SMT
+def _c17_mir_engine(tier, seed, rundir, repo, overlays, results):
+    """Translate the arithmetic of both quorum_threshold functions from the nightly MIR dump of the overlay (i.e. of /repo's
+    current source) into QF_BV and let z3 and cvc5 decide the C17 inequalities for every total stake below 2^31."""
+    import json
+    import shutil
+    import subprocess
+    import time
+    t0 = time.time()
+    out = {"name": "c17_mir_bitvector", "queries": 0, "wall_s": 0.0, "status": "ERROR", "solver_s": 0.0,
+           "functions": ["config::Committee::quorum_threshold (consensus)", "config::Committee::quorum_threshold (mempool)"]}
+    if "L" not in overlays:
+        out["detail"] = "no overlay"
+        return out
+    here = os.path.dirname(os.path.dirname(os.path.abspath(__file__)))
+    ws = os.path.join(rundir, "mir-ws")
+    shutil.copytree(overlays["L"], ws)
+    env = dict(os.environ, CARGO_NET_OFFLINE="true", CARGO_TARGET_DIR=os.path.join(rundir, "mir-target"))
+    env.pop("RUSTFLAGS", None)
+    mirs = {}
+    for crate in ("mempool", "consensus"):
+        p = os.path.join(rundir, crate + ".mir")
+        with open(p, "w") as f:
+            r = subprocess.run(["timeout", "900", "cargo", "+nightly", "rustc", "--offline", "-p", crate, "--lib", "--", "-Zunpretty=mir",
+                                "-C", "debug-assertions=off", "-C", "overflow-checks=on"], cwd=ws, env=env, stdout=f, stderr=subprocess.PIPE, universal_newlines=True)
+        if r.returncode != 0 or os.path.getsize(p) == 0:
+            out["detail"] = "MIR dump of %s failed: %s" % (crate, r.stderr[-400:])
+            out["wall_s"] = round(time.time() - t0, 1)
+            return out
+        mirs[crate] = p
+    r = subprocess.run(["python3", os.path.join(here, "smt", "mir_quorum.py"), mirs["consensus"], mirs["mempool"], rundir], stdout=subprocess.PIPE, stderr=subprocess.PIPE, universal_newlines=True)
+    try:
+        res = json.loads(r.stdout.strip().split("\n")[-1])
+    except Exception:  # noqa
+        out["detail"] = "translator crashed: " + (r.stderr or r.stdout)[-400:]
+        out["wall_s"] = round(time.time() - t0, 1)
+        return out
+    out.update({k: res[k] for k in ("status", "queries", "terms", "detail") if k in res})
+    out["smt_queries"] = res.get("queries", [])
+    out["queries"] = 2 * len(res.get("queries", []))
+    out["obligations"] = out["queries"]
+    out["discharged"] = sum((q["z3"] == "unsat") + (q["cvc5"] == "unsat") for q in res.get("queries", []))
+    out["nontrivial"] = len([q for q in res.get("queries", []) if q["z3"] == "unsat" and q["cvc5"] == "unsat"])
+    out["solver_s"] = round(sum(q["z3_s"] + q["cvc5_s"] for q in res.get("queries", [])), 1)
+    out["bounds"] = "every total stake 1 <= t < 2^31 (32-bit wrap-around semantics, overflow panics included), independent of the number of authorities"
+    if out["status"] == "FAIL":
+        out["failed"] = ["C17 threshold arithmetic violates the quorum inequalities for some total stake: %s" % json.dumps(res.get("queries"))[:300]]
+        out["replay_of"] = ["c17_quorum_k4", "c17_quorum_k3", "c17_quorum_k2", "c17_quorum_k1", "c17_same_k4"]
+    shutil.rmtree(ws, ignore_errors=True)
+    shutil.rmtree(os.path.join(rundir, "mir-target"), ignore_errors=True)
+    out["wall_s"] = round(time.time() - t0, 1)
+    return out
+
+
+SPECS["C17"]["engines"] = [_c17_mir_engine]
+SPECS["C17"]["trusted_base"] = SPECS["C17"]["trusted_base"] + ["smt/mir_quorum.py: MIR statement -> bit-vector term translation (fails closed on anything it does not understand)", "rustc nightly -Zunpretty=mir", "z3 4.8.12, cvc5 1.0"]
